@@ -8,6 +8,7 @@ import (
 	"runtime"
 	"runtime/debug"
 	"sort"
+	"strconv"
 	"strings"
 	"sync"
 	"syscall"
@@ -231,6 +232,17 @@ type Sim struct {
 	Abnormal  string // non-empty: the run could not be completed (deadlock, would-block, stall, step-cap)
 	StallDump string
 
+	// PCT: a share of the runs is scheduled by priorities with a few change points (Burckhardt et al.,
+	// "A Randomized Scheduler with Probabilistic Guarantees of Finding Bugs") instead of the random walk:
+	// always the highest-priority task that can run; at a change point the running task drops to the
+	// lowest priority. Finds orderings that need one task to stay ahead for long stretches.
+	PCT     bool
+	NoPCT   bool // set by a workload that must not use it
+	PCTLen  int  // range of the change points, in steps
+	pctPrio map[int]int
+	pctAt   []uint64
+	pctLow  int
+
 	pendingW map[uint64]map[int]bool
 	Ledger   *Ledger
 	OnMsg    func(s *Sim, t *Task, m Msg)
@@ -241,7 +253,7 @@ type Sim struct {
 }
 
 func NewSim(tape *Tape) *Sim {
-	s := &Sim{Tape: tape, Preempt: 100, MaxSteps: 20000, Counts: map[string]int{}, pendingW: map[uint64]map[int]bool{}}
+	s := &Sim{Tape: tape, Preempt: 100, MaxSteps: 20000, PCTLen: 150, Counts: map[string]int{}, pendingW: map[uint64]map[int]bool{}}
 	s.Ledger = newLedger(s)
 	s.traceHash = 1469598103934665603
 	return s
@@ -325,6 +337,14 @@ func (s *Sim) unfinished() []*Task {
 	return out
 }
 
+// pctShare is the permille of multi-task runs scheduled by priorities (experiments: VERIF_PCT).
+var pctShare = func() int {
+	if v, err := strconv.Atoi(os.Getenv("VERIF_PCT")); err == nil {
+		return v
+	}
+	return 100
+}()
+
 // Run executes all registered tasks to completion under the tape. It returns false if the run
 // ended abnormally (s.Abnormal says why); parked task goroutines then stay parked and the
 // process must not be reused for further runs.
@@ -341,6 +361,20 @@ func (s *Sim) Run() bool {
 		go t.main()
 	}
 	var cur *Task
+	if !s.NoPCT && len(s.Tasks) > 1 && s.Tape.S(1000) < pctShare {
+		s.PCT = true
+		s.pctPrio = map[int]int{}
+		for _, t := range s.Tasks {
+			s.pctPrio[t.ID] = 1000 + s.Tape.S(1000)
+		}
+		// one to three change points; their range is drawn too, because runs are between 20 and 2000 steps long
+		span := []int{20, 60, s.PCTLen, 500}[s.Tape.S(4)]
+		for i, n := 0, 1+s.Tape.S(3); i < n; i++ {
+			s.pctAt = append(s.pctAt, uint64(1+s.Tape.S(span)))
+		}
+		s.pctLow = 999
+		s.Counts["pct-runs"]++
+	}
 	for {
 		cands := s.unfinished()
 		if len(cands) == 0 {
@@ -393,7 +427,34 @@ func (s *Sim) Run() bool {
 			continue
 		}
 		var pick *Task
-		if cur != nil && cur.state == stRunnable {
+		if s.PCT {
+			for _, at := range s.pctAt {
+				if at == s.Step && cur != nil {
+					s.pctPrio[cur.ID] = s.pctLow
+					s.pctLow--
+				}
+			}
+			var best, bestBlocked *Task
+			for _, t := range cands {
+				if t.state == stBlocked {
+					if bestBlocked == nil || s.pctPrio[t.ID] > s.pctPrio[bestBlocked.ID] || (s.pctPrio[t.ID] == s.pctPrio[bestBlocked.ID] && t.ID < bestBlocked.ID) {
+						bestBlocked = t
+					}
+					continue
+				}
+				if best == nil || s.pctPrio[t.ID] > s.pctPrio[best.ID] || (s.pctPrio[t.ID] == s.pctPrio[best.ID] && t.ID < best.ID) {
+					best = t
+				}
+			}
+			pick = best
+			// a blocked task of higher priority is probed again now and then: its lock may have been released
+			if bestBlocked != nil && s.pctPrio[bestBlocked.ID] > s.pctPrio[best.ID] && bestBlocked != cur && s.Tape.SBool(300) {
+				pick = bestBlocked
+			}
+			if cur != nil && cur.state == stRunnable && pick != cur {
+				s.Counts["preemptions"]++
+			}
+		} else if cur != nil && cur.state == stRunnable {
 			pick = cur
 			if len(cands) > 1 && s.Tape.SBool(s.Preempt) {
 				others := without(cands, cur)
